@@ -25,6 +25,7 @@ ASSUMPTIONS = [
     "value universe: int, str (Latin-1), None, list, tuple; bool/float/other objects are outside the model",
     "text is Latin-1 (code points 0..255); characters above U+00FF are outside the model",
     "0 <= idx <= len(data) for serialize/deserialize (all internal calls satisfy it)",
+    "runs of more than 4000 decimal digits in a text are excluded: CPython's int()/str() refuse conversions above 4300 digits (sys.int_max_str_digits) with ValueError, which py_int / py_str_int do not model",
     "non-termination of the Python loops (Seq/Grid/ValuedRooms over a base that consumes no item, e.g. FixStr) is reported by the model as OtherError; such terms are excluded from search and the tie runs them under a 1 s alarm",
     "sorted(key=min)/min() on ill-typed room lists: the model uses a stable insertion sort; which comparisons CPython's sort performs on incomparable data is not modelled (such inputs are excluded from the tie when they have >= 3 rooms)",
     "board height and width >= 1 in the theorems (the model and the tie also cover 0 and mismatching sizes)",
